@@ -316,6 +316,9 @@ func genText(r *hx.Rng, charset int) string {
 			if noCR && sp == "\r" {
 				sp = "\n"
 			}
+			if clean && noCR && (sp == "\x00" || sp == "\v" || sp == "\f") {
+				sp = "x"
+			}
 			parts = append(parts, sp)
 		case 8:
 			if charset == 0 {
@@ -785,7 +788,11 @@ func (b *builtCert) modelFields() string {
 	var ch []string
 	var issuerKey crypto.PublicKey
 	for _, c := range b.chain {
-		ch = append(ch, hx.Hex(c.RawSubject)+"~"+keySpec(c.PublicKey))
+		leafFlag := "0"
+		if c == b.leaf {
+			leafFlag = "1"
+		}
+		ch = append(ch, hx.Hex(c.RawSubject)+"~"+hx.Hex(c.RawIssuer)+"~"+keySpec(c.PublicKey)+"~"+leafFlag)
 		if issuerKey == nil && bytes.Equal(c.RawSubject, b.leaf.RawIssuer) {
 			issuerKey = c.PublicKey
 		}
@@ -918,11 +925,9 @@ func Gen(w *bufio.Writer, seed uint64, tier string, prop string) {
 	}
 	if prop == "C19" {
 		// 3. what Verify looks at: manifests signed outside appmanifest.Sign with identity fields that are not the signer's
-		for i, kind := range []string{"good", "publisher-other", "publisher-missing", "ikh-other", "token-other", "token-missing", "license-subject-other"} {
+		for i, kind := range vgapKinds {
 			kn := []string{"r2048", "p256", "r1024e3"}[i%3]
-			k := key(kn)
-			tok := sha1hex(refSnk(k.priv.Public()))
-			fmt.Fprintf(w, "IDENT vgap %s %s %s %s %s\n", kind, keySpec(k.priv.Public()), vgapAsi(kind, k.priv.Public()), tok, kn)
+			fmt.Fprintf(w, "IDENT vgap %s %s\n", kind, vgapFor(kind, kn).opFields())
 		}
 	}
 }
@@ -952,17 +957,6 @@ func refToken(pub crypto.PublicKey) string {
 		t[i] = s[19-i]
 	}
 	return hex.EncodeToString(t)
-}
-
-func vgapAsi(kind string, pub crypto.PublicKey) string {
-	tok := refToken(pub)
-	switch kind {
-	case "token-other":
-		tok = "0123456789abcdef"
-	case "token-missing":
-		return "-." + hx.Hex([]byte("name")) + ":" + hx.Hex([]byte("App.exe"))
-	}
-	return "-." + hx.Hex([]byte("name")) + ":" + hx.Hex([]byte("App.exe")) + ",-." + hx.Hex([]byte("publicKeyToken")) + ":" + hx.Hex([]byte(tok))
 }
 
 func genSnk(w *bufio.Writer, r *hx.Rng, mul int) {
@@ -1048,13 +1042,20 @@ func Handle(f []string) string {
 	case "sign":
 		return doSign(f[4], f[5], f[6])
 	case "vgap":
-		return doVgap(f[1], f[5])
+		return doVgap(f[1], f[8])
 	}
 	return "bad-op"
 }
 
 func classify(err error) string {
 	s := err.Error()
+	for k, v := range map[string]string{"publisherIdentity name mismatch": "publisher-name-mismatch", "issuerKeyHash mismatch": "publisher-ikh-mismatch",
+		"missing publisherIdentity": "publisher-missing", "multiple publisherIdentity": "publisher-multiple", "missing X509SubjectName": "license-subject-missing",
+		"X509SubjectName mismatch": "license-subject-mismatch"} {
+		if strings.Contains(s, k) {
+			return v
+		}
+	}
 	for _, k := range []string{"unsupported ECDSA curve", "unsupported key type", "unable to find issuer", "no top-level assemblyIdentity", "no root element",
 		"publicKeyToken mismatch", "missing assemblyIdentity", "different keys", "digest mismatch", "invalid primary signature", "invalid authenticode signature",
 		"first certificate must match", "XML syntax error", "invalid UTF-8", "not signed"} {
@@ -1108,6 +1109,15 @@ func doDN(style string, der []byte) string {
 	return "ok " + hx.Hex([]byte(x509tools.FormatPkixName(der, styleOf(style))))
 }
 
+func unprefixed(e *etree.Element, key string) string {
+	for _, a := range e.Attr {
+		if a.Space == "" && a.Key == key {
+			return a.Value
+		}
+	}
+	return ""
+}
+
 func doSign(manifestHex, hashName, specs string) string {
 	manifest := hx.MustUnHex(manifestHex)
 	mod := signers.ByName("appmanifest")
@@ -1146,12 +1156,12 @@ func doSign(manifestHex, hashName, specs string) string {
 	}
 	name, ikh := "", ""
 	if len(pubs) > 0 {
-		name, ikh = pubs[len(pubs)-1].SelectAttrValue("name", ""), pubs[len(pubs)-1].SelectAttrValue("issuerKeyHash", "")
+		name, ikh = unprefixed(pubs[len(pubs)-1], "name"), unprefixed(pubs[len(pubs)-1], "issuerKeyHash")
 	}
 	asi := root.SelectElement("assemblyIdentity")
 	tok := ""
 	if asi != nil {
-		tok = asi.SelectAttrValue("publicKeyToken", "")
+		tok = unprefixed(asi, "publicKeyToken") // the attribute without a namespace; q:publicKeyToken is another attribute
 	}
 	res := fmt.Sprintf("ok token=%s name=%s ikh=%s npub=%d asi=%s", tok, hx.Hex([]byte(name)), ikh, len(pubs), asiString(root))
 	// the record and the verifier must name the same certificate
@@ -1183,7 +1193,7 @@ func doSign(manifestHex, hashName, specs string) string {
 		if e := lic.FindElement("r:grant/as:AuthenticodePublisher/as:X509SubjectName"); e == nil || e.Text() != name {
 			extra = append(extra, "license-subject-differs")
 		}
-		if e := lic.FindElement("r:grant/as:ManifestInformation/as:assemblyIdentity"); e == nil || e.SelectAttrValue("publicKeyToken", "") != tok {
+		if e := lic.FindElement("r:grant/as:ManifestInformation/as:assemblyIdentity"); e == nil || unprefixed(e, "publicKeyToken") != tok {
 			extra = append(extra, "license-token-differs")
 		}
 	} else {
@@ -1197,7 +1207,7 @@ func doSign(manifestHex, hashName, specs string) string {
 }
 
 // a manifest signed like appmanifest.Sign does, but with the identity fields chosen by the caller
-func signWith(manifest []byte, cert *certloader.Certificate, hash crypto.Hash, token *string, pubName, pubIkh *string, licSubject string) ([]byte, error) {
+func signWith(manifest []byte, cert *certloader.Certificate, certs []*x509.Certificate, hash crypto.Hash, token *string, pubs [][2]string, licSubject *string) ([]byte, error) {
 	doc := etree.NewDocument()
 	if err := doc.ReadFromBytes(manifest); err != nil {
 		return nil, err
@@ -1208,10 +1218,10 @@ func signWith(manifest []byte, cert *certloader.Certificate, hash crypto.Hash, t
 		asi.CreateAttr("publicKeyToken", *token)
 	}
 	xmldsig.RemoveElements(root, "publisherIdentity")
-	if pubName != nil {
+	for _, p := range pubs {
 		id := root.CreateElement("publisherIdentity")
-		id.CreateAttr("name", *pubName)
-		id.CreateAttr("issuerKeyHash", *pubIkh)
+		id.CreateAttr("name", p[0])
+		id.CreateAttr("issuerKeyHash", p[1])
 	}
 	sigopts := xmldsig.SignOptions{MsCompatHashNames: true, IncludeKeyValue: true}
 	if err := xmldsig.Sign(root, root, hash, cert.Signer(), cert.Chain(), sigopts); err != nil {
@@ -1238,10 +1248,12 @@ func signWith(manifest []byte, cert *certloader.Certificate, hash crypto.Hash, t
 	massy.Space = "as"
 	minfo.AddChild(massy)
 	grant.CreateElement("as:SignedBy")
-	grant.CreateElement("as:AuthenticodePublisher").CreateElement("as:X509SubjectName").SetText(licSubject)
+	if licSubject != nil {
+		grant.CreateElement("as:AuthenticodePublisher").CreateElement("as:X509SubjectName").SetText(*licSubject)
+	}
 	issuer := license.CreateElement("r:issuer")
 	sigopts.IncludeX509 = true
-	if err := xmldsig.Sign(license, issuer, hash, cert.Signer(), cert.Chain(), sigopts); err != nil {
+	if err := xmldsig.Sign(license, issuer, hash, cert.Signer(), certs, sigopts); err != nil {
 		return nil, err
 	}
 	issuer.SelectElement("Signature").CreateAttr("Id", "AuthenticodeSignature")
@@ -1254,37 +1266,114 @@ func signWith(manifest []byte, cert *certloader.Certificate, hash crypto.Hash, t
 
 var vgapManifest = []byte(`<assembly xmlns="urn:schemas-microsoft-com:asm.v1" manifestVersion="1.0"><assemblyIdentity name="App.exe"/><description>x</description></assembly>`)
 
-func doVgap(kind, keyName string) string {
-	at := func(cn string) []byte {
-		n := &gName{rdns: [][]gATV{{{oid: encOID(2, 5, 4, 3), value: tlv(12, []byte(cn)), oidTag: 6, seqTag: 0x30}}}, setTag: []byte{0x31}}
-		return n.der()
+var vgapKinds = []string{"good", "good-selfsigned", "publisher-other", "publisher-missing", "publisher-twice", "ikh-other", "ikh-of-leaf",
+	"token-other", "token-missing", "license-subject-other", "license-subject-missing", "good-issuer-not-carried", "gap-ikh-other-issuer-not-carried"}
+
+// vgapCase: a manifest signed through xmldsig.Sign (both signatures good) with chosen identity fields
+type vgapCase struct {
+	keyName    string
+	selfSigned bool
+	token      *string
+	pubs       [][2]string
+	lic        *string
+	withIssuer bool
+}
+
+var vgapLeafSubject = func() []byte {
+	n := &gName{rdns: [][]gATV{{{oid: encOID(2, 5, 4, 3), value: tlv(12, []byte("The Real Signer")), oidTag: 6, seqTag: 0x30}}}, setTag: []byte{0x31}}
+	return n.der()
+}()
+
+const vgapLeafName = "CN=The Real Signer" // the MS-OSCO string of vgapLeafSubject (reference value of the generator)
+
+func vgapFor(kind, keyName string) *vgapCase {
+	leafPub := key(keyName).priv.Public()
+	caPub := key("ca2048").priv.Public()
+	tok := refToken(leafPub)
+	name := vgapLeafName
+	ikh := sha1hex(refSkidStream(caPub))
+	c := &vgapCase{keyName: keyName, token: &tok, lic: &name, withIssuer: true}
+	if kind == "good-selfsigned" {
+		c.selfSigned = true
+		ikh = sha1hex(refSkidStream(leafPub))
 	}
-	bc, err := buildCert(certSpec{leafKey: keyName, subject: at("The Real Signer"), caKey: "ca2048", caSubj: fixedCASubject})
+	c.pubs = [][2]string{{name, ikh}}
+	other := "CN=Somebody Else"
+	switch kind {
+	case "publisher-other":
+		c.pubs = [][2]string{{other, ikh}}
+	case "publisher-missing":
+		c.pubs = nil
+	case "publisher-twice":
+		c.pubs = [][2]string{{name, ikh}, {name, ikh}}
+	case "ikh-other":
+		c.pubs = [][2]string{{name, strings.Repeat("ab", 20)}}
+	case "ikh-of-leaf":
+		c.pubs = [][2]string{{name, sha1hex(refSkidStream(leafPub))}}
+	case "token-other":
+		t := "0123456789abcdef"
+		c.token = &t
+	case "token-missing":
+		c.token = nil
+	case "license-subject-other":
+		c.lic = &other
+	case "license-subject-missing":
+		c.lic = nil
+	case "good-issuer-not-carried":
+		c.withIssuer = false
+	case "gap-ikh-other-issuer-not-carried": // no certificate named like the issuer is carried: the field cannot be judged
+		c.withIssuer = false
+		c.pubs = [][2]string{{name, strings.Repeat("ab", 20)}}
+	}
+	return c
+}
+
+// <leafkey> <carried> <asi> <pubs> <lic> <sha1 of the key blob> <keyname>
+func (c *vgapCase) opFields() string {
+	leafPub := key(c.keyName).priv.Public()
+	caPub := key("ca2048").priv.Public()
+	issuerSubj := fixedCASubject
+	if c.selfSigned {
+		issuerSubj = vgapLeafSubject
+	}
+	carried := []string{hx.Hex(vgapLeafSubject) + "~" + hx.Hex(issuerSubj) + "~" + keySpec(leafPub) + "~" + sha1hex(refSkidStream(leafPub))}
+	if !c.selfSigned && c.withIssuer {
+		carried = append(carried, hx.Hex(fixedCASubject)+"~"+hx.Hex(fixedCASubject)+"~"+keySpec(caPub)+"~"+sha1hex(refSkidStream(caPub)))
+	}
+	asi := "-." + hx.Hex([]byte("name")) + ":" + hx.Hex([]byte("App.exe"))
+	if c.token != nil {
+		asi += ",-." + hx.Hex([]byte("publicKeyToken")) + ":" + hx.Hex([]byte(*c.token))
+	}
+	pubs := "-"
+	if len(c.pubs) > 0 {
+		var ps []string
+		for _, p := range c.pubs {
+			ps = append(ps, hx.Hex([]byte(p[0]))+":"+hx.Hex([]byte(p[1])))
+		}
+		pubs = strings.Join(ps, ",")
+	}
+	lic := "none"
+	if c.lic != nil {
+		lic = hx.Hex([]byte(*c.lic))
+	}
+	return strings.Join([]string{keySpec(leafPub), strings.Join(carried, ","), asi, pubs, lic, sha1hex(refSnk(leafPub)), c.keyName}, " ")
+}
+
+func doVgap(kind, keyName string) string {
+	c := vgapFor(kind, keyName)
+	cs := certSpec{leafKey: keyName, subject: vgapLeafSubject, caKey: "ca2048", caSubj: fixedCASubject}
+	if c.selfSigned {
+		cs = certSpec{leafKey: keyName, subject: vgapLeafSubject}
+	}
+	bc, err := buildCert(cs)
 	if err != nil {
 		return "err harness-cert"
 	}
-	tok, _ := appmanifest.PublicKeyToken(bc.leaf.PublicKey)
-	name, ikh, _ := appmanifest.PublisherIdentity(bc.cl)
-	ptok, pname, pikh := &tok, &name, &ikh
-	lic := name
-	other := "CN=Somebody Else"
-	otherIkh := strings.Repeat("ab", 20)
-	otherTok := "0123456789abcdef"
-	switch kind {
-	case "publisher-other":
-		pname = &other
-	case "publisher-missing":
-		pname = nil
-	case "ikh-other":
-		pikh = &otherIkh
-	case "token-other":
-		ptok = &otherTok
-	case "token-missing":
-		ptok = nil
-	case "license-subject-other":
-		lic = other
+	certs := []*x509.Certificate{bc.leaf}
+	if !c.selfSigned && c.withIssuer {
+		certs = append(certs, bc.chain[1])
 	}
-	signed, err := signWith(vgapManifest, bc.cl, crypto.SHA256, ptok, pname, pikh, lic)
+	signed, err := signWith(vgapManifest, bc.cl, certs, crypto.SHA256, c.token, c.pubs, c.lic)
 	if err != nil {
 		return "err harness-sign " + err.Error()
 	}
